@@ -166,7 +166,12 @@ pub fn c18_unit() -> Unit {
                 let _ = s.set_read_timeout(Some(std::time::Duration::from_secs(15)));
                 let mut rd = BufReader::new(s.try_clone().unwrap());
                 let mut read_line = |rd: &mut BufReader<std::net::TcpStream>| -> Option<String> {
+                    // overall deadline: the heartbeat lines keep arriving, so a per-read timeout alone never fires
+                    let t0 = std::time::Instant::now();
                     loop {
+                        if t0.elapsed().as_secs() >= 12 {
+                            return None;
+                        }
                         let mut l = String::new();
                         match rd.read_line(&mut l) {
                             Ok(0) => return None,
@@ -230,11 +235,21 @@ pub fn c18_unit() -> Unit {
                 if verdict.is_none() {
                     // 3. pause: a poke while paused must not be consumed until start
                     send(&mut s, &["cmd:pause".into(), u8line(b'P')]);
-                    let _ = s.set_read_timeout(Some(std::time::Duration::from_millis(400)));
-                    let mut rd2 = BufReader::new(s.try_clone().unwrap());
-                    let early = read_line(&mut rd2);
-                    if let Some(l) = early {
-                        verdict = Some(format!("execution was paused, yet the guest answered {:?}", l));
+                    // while paused no instruction runs, so neither guest output nor heartbeats may arrive:
+                    // listen for 400 ms (heartbeats already in flight are tolerated, guest output is not)
+                    let _ = s.set_read_timeout(Some(std::time::Duration::from_millis(100)));
+                    let tq = std::time::Instant::now();
+                    while tq.elapsed().as_millis() < 400 {
+                        let mut l = String::new();
+                        match rd.read_line(&mut l) {
+                            Ok(n) if n > 0 => {
+                                if !l.starts_with("sync:") {
+                                    verdict = Some(format!("execution was paused, yet the guest answered {:?}", l.trim_end()));
+                                    break;
+                                }
+                            }
+                            _ => {}
+                        }
                     }
                     let _ = s.set_read_timeout(Some(std::time::Duration::from_secs(15)));
                     if verdict.is_none() {
